@@ -388,7 +388,8 @@ def check_constructor(ctx):
                     continue
                 for s in sets:
                     nm, v = canon(s.name), canon(s.value)
-                    if nm == '%s[1].descriptor_name' % item and v == 'defaults[%s[1].descriptor_name]' % item and bp.effects.index(s) > bp.effects.index(inits[0]):
+                    names_ok = ('%s[1].descriptor_name' % item, "getattr(%s[1], 'descriptor_name', None)" % item)
+                    if nm in names_ok and v in ['defaults[%s]' % x for x in names_ok] and bp.effects.index(s) > bp.effects.index(inits[0]):
                         ok = True
                     else:
                         ctx.violation(rule, fi, s.text(), 'the constructor writes %s directly: the keyword for a described field must go through setattr(self, descriptor_name, defaults[descriptor_name]) after field.init' % nm, s.lineno, clause='d')
